@@ -11,25 +11,6 @@ import LC.Proofs.Heap
 namespace LC.Heap
 variable {α : Type} {less : α → α → Bool}
 
-/-- Operations a client can perform on the queue. -/
-inductive Op (α : Type) where
-  | push (x : α)
-  | pop
-  | remove (i : Nat)
-  | setFix (i : Nat) (x : α)   -- change the priority of the element at `i`, then `Fix(i)`
-
-/-- One step; an operation Go would panic on (empty pop, bad index) is not a
-step of a well-formed history and yields `none`. -/
-def step (less : α → α → Bool) (a : Array (E α)) : Op α → Option (Array (E α))
-  | .push x => some (push less a x)
-  | .pop => (pop less a).map (·.1)
-  | .remove i => (remove less a i).map (·.1)
-  | .setFix i x => setFix less a i x
-
-def run (less : α → α → Bool) : Array (E α) → List (Op α) → Option (Array (E α))
-  | a, [] => some a
-  | a, op :: ops => (step less a op).bind (fun a' => run less a' ops)
-
 /-- Both invariants hold in every state reachable from the empty queue by any
 panic-free operation sequence. -/
 theorem reachable_inv (sw : StrictWeak less) (ops : List (Op α)) (a : Array (E α))
